@@ -7,7 +7,7 @@
    C18, C13, C16 — and are aggregated here by the integrator.) *)
 From AL Require Import Base.Str Wf.Scalars Wf.ScalarsProofs Wf.ScalarExit.
 From Coq Require Import ZArith.
-From AL Require Gen.GenPanicSites Wf.PanicSites.
+From AL Require Gen.GenPanicSites Wf.PanicSites Wf.CronGuard.
 
 (* every value parser at once: for every well-formed node, none of them
    panics ([np m] is [forall s, m <> Panic s]); the single statements follow *)
@@ -234,3 +234,19 @@ Theorem C01_panic_sites_are_known : forall s, In s GenPanicSites.panic_sites ->
   exists c, In (s, c) PanicSites.allowed.
 Proof. exact PanicSites.panic_sites_known. Qed.
 Print Assumptions C01_panic_sites_are_known.
+
+(* on.schedule[].cron: a time zone prefix with nothing after it makes the cron library slice out
+   of range; the rule reports such a spec itself, hands every other spec on, and nothing that it
+   hands on can take that path (the pinned tree: refuted by "TZ=UTC") *)
+Theorem C01_cron_spec_never_panics : forall s, CronGuard.check_cron s <> CronGuard.CronPanic.
+Proof. exact CronGuard.check_cron_no_panic. Qed.
+Print Assumptions C01_cron_spec_never_panics.
+
+Theorem C01_cron_library_call_safe : forall s,
+  CronGuard.check_cron s = CronGuard.CronToLibrary -> CronGuard.lib_panics s = false.
+Proof. exact CronGuard.check_cron_library_safe. Qed.
+Print Assumptions C01_cron_library_call_safe.
+
+Theorem C01_cron_old_refuted : exists s, CronGuard.check_cron_old s = CronGuard.CronPanic.
+Proof. exact CronGuard.check_cron_old_refuted. Qed.
+Print Assumptions C01_cron_old_refuted.
